@@ -142,4 +142,36 @@ theorem equal_script_same (ops : List Op) : ∀ old new, Valid ops old new = tru
     | insert n => simp [isEqualOp] at ha
     | replace n m => simp [isEqualOp] at ha
 
+/-- when `similar`'s index fields are the running positions, reading them off the operations is the
+same as counting -/
+theorem mismatchesI_seq (v : Variant) : ∀ (xs : List IOp) (oi ni : Nat) (old new : List Nat),
+    InOrder oi ni xs = true → mismatchesI v xs old new = mismatches v oi ni (xs.map (·.op)) old new := by
+  intro xs
+  induction xs with
+  | nil => intro oi ni old new _; simp [mismatchesI, mismatches]
+  | cons x rest ih =>
+    intro oi ni old new h
+    obtain ⟨op, xoi, xni⟩ := x
+    cases op with
+    | equal n =>
+      simp only [InOrder, Bool.and_eq_true, decide_eq_true_eq] at h
+      obtain ⟨⟨h1, h2⟩, h3⟩ := h
+      subst h1; subst h2
+      simp only [mismatchesI, List.map_cons, mismatches]; exact ih _ _ _ _ h3
+    | delete n =>
+      simp only [InOrder, Bool.and_eq_true, decide_eq_true_eq] at h
+      obtain ⟨⟨h1, h2⟩, h3⟩ := h
+      subst h1; subst h2
+      simp only [mismatchesI, List.map_cons, mismatches]; rw [ih _ _ _ _ h3]
+    | insert n =>
+      simp only [InOrder, Bool.and_eq_true, decide_eq_true_eq] at h
+      obtain ⟨⟨h1, h2⟩, h3⟩ := h
+      subst h1; subst h2
+      simp only [mismatchesI, List.map_cons, mismatches]; rw [ih _ _ _ _ h3]
+    | replace n m =>
+      simp only [InOrder, Bool.and_eq_true, decide_eq_true_eq] at h
+      obtain ⟨⟨h1, h2⟩, h3⟩ := h
+      subst h1; subst h2
+      simp only [mismatchesI, List.map_cons, mismatches]; rw [ih _ _ _ _ h3]
+
 end StyluaModel.DiffLemmas
